@@ -101,6 +101,7 @@ type FnEnc struct {
 	defers   []deferred
 	ghosts   map[string]HeapVar
 	bags     *bagState
+	returnEnsuresBound map[int]int
 }
 
 type localRef struct {
